@@ -107,7 +107,7 @@ def run(ctx):
         toks = fmtlib.annotate(c["program"], {int(g): v for g, v in c.get("gap_comments", {}).items()})
         progs.append(dict(origin="corpus", prog=c["program"], toks=toks, text=c["text"], text_b=c.get("text_b"), mode="corpus",
                           gap_comments=c.get("gap_comments", {})))
-    n = 1500 if ctx.thorough() else 260
+    n = 2500 if ctx.thorough() else 260
     for _ in range(n):
         progs.append(mk_prog(ctx.rng))
     fails, st, jobs, obs = oracle(exe, dump, progs, seed=ctx.rng.randrange(1 << 30))
